@@ -12,6 +12,8 @@
 //!   cli.<u|ss|cs|bi|U|SS|CS|BI> <snd calls> <acc calls> UE n hv* UA n hv* Q k reqmsg E n hv* HS <none|code> F n (flag pc msg)* TS <none|code>
 //!   pair.<shape> <route> <cli snd> <cli acc> <srv acc> <srv snd> K k H <reply|fail> n dis Q reqmsg R rmsg
 //!     (the client's transport *is* a real `server::Grpc`; both directions are recorded on the way)
+//!   clih.<shape> <http status> <rest of a cli case>   the scripted response has that HTTP status
+//!   x.<knobs> <any of the above>   dimensions that must be invisible, see c05_x.rs
 //! calls: string over g,d,z (enable gzip/deflate/zstd) and p (pop; route c only), `-` = none.
 use crate::common::*;
 #[path = "c05_x.rs"]
@@ -764,7 +766,7 @@ impl tower_service::Service<http::Request<tonic::body::Body>> for Transport {
                 frames.push(Ok(http_body::Frame::trailers(h)));
             }
             let mut resp = http::Response::builder()
-                .status(200)
+                .status(x::http_status())
                 .version(http::Version::HTTP_2)
                 .header("content-type", if kn.xh & 8 != 0 { "application/grpc+proto" } else { "application/grpc" });
             if kn.xh & 1 != 0 {
@@ -1348,6 +1350,7 @@ pub fn execute(case: &str) -> String {
     let mut c = Cur { t: case.split(' ').filter(|s| !s.is_empty()).collect(), i: 0 };
     // `x.<knobs> <inner case>`: the inner case with dimensions turned that must make no difference
     x::set(x::Knobs::default());
+    x::set_http_status(200);
     if c.t.first().is_some_and(|k| k.starts_with("x.")) {
         match x::parse(c.t[0]) {
             Some(k) => x::set(k),
@@ -1358,6 +1361,14 @@ pub fn execute(case: &str) -> String {
     let r = match c.next() {
         Some(k) if k.starts_with("srv.") => run_srv(&k[4..], &mut c),
         Some(k) if k.starts_with("cli.") => run_cli(&k[4..], &mut c),
+        // clih.<shape> <http status> <rest of a cli case>: the scripted response has that HTTP status
+        Some(k) if k.starts_with("clih.") => match c.num() {
+            Some(st) if (100..1000).contains(&st) => {
+                x::set_http_status(st as u16);
+                run_cli(&k[5..], &mut c)
+            }
+            _ => None,
+        },
         Some(k) if k.starts_with("pair.") => run_pair(&k[5..], &mut c),
         Some(k) if k.starts_with("gen.") => run_gen(&k[4..], &mut c),
         _ => None,
